@@ -3,7 +3,8 @@
    write_seq.py:168-218  [EXTENSIONS] rows, then for each non-empty library the header line
                          `extension TRIGGERS|LABELSET|LABELINC <numeric id>` (the id comes from
                          get_extension_type_ID, which CREATES one if the name is still unknown) and the rows;
-   read_seq.py:43-61     libraries and the two extension-type lists are reset (not extensions_library);
+   read_seq.py:43-61     libraries and the two extension-type lists are re-created (extensions_library too since
+                         /repo 9f51bed; the model takes that from Gen.GenLabels.read_resets_ext_library);
    read_seq.py:162-190   [EXTENSIONS] -> a new library; every header -> set_extension_string_ID (raises when the
                          name or the number is already taken) and a library built by insert(key_id, data).
 
@@ -13,7 +14,7 @@
    Executable definitions only. *)
 From Coq Require Import List Bool ZArith QArith Qcanon Qround.
 From RecordUpdate Require Import RecordSet.
-From PV Require Import Base.AList Base.QUtil Gen.GenFile Model.File Model.EventLib Model.Seq.
+From PV Require Import Base.AList Base.QUtil Gen.GenFile Gen.GenLabels Model.File Model.EventLib Model.Seq.
 Import ListNotations RecordSetNotations.
 Open Scope Z_scope.
 
@@ -85,15 +86,20 @@ Definition read_sec (oc : option core) (s : xsec) : option core :=
     end
   end.
 
-(* read() of the extension part into the core [c0] (a fresh Sequence: core_init) *)
-Definition read_ext (c0 : core) (f : xfile) : option core :=
+(* read() of the extension part into the core [c0] (any object, fresh or used).  read_seq.py:43-61 re-creates
+   the trigger and the two label libraries and empties both extension type lists; whether extensions_library
+   is re-created too is read from the source ([reset_ext] = Gen.GenLabels.read_resets_ext_library): if not, it
+   is replaced only when the file has an [EXTENSIONS] section *)
+Definition read_ext_gen (reset_ext : bool) (c0 : core) (f : xfile) : option core :=
   let c1 := c0 <| trig_l := lib_empty |> <| lset_l := lib_empty |> <| linc_l := lib_empty |>
                <| ext_num := [] |> <| ext_str := [] |> in
+  let c1' := if reset_ext then c1 <| ext_l := lib_empty |> else c1 in
   let c2 := match x_ext f with
-            | Some rows => c1 <| ext_l := lib_of_rows lib_empty (map (read_row sec_ext) rows) |>
-            | None => c1
+            | Some rows => c1' <| ext_l := lib_of_rows lib_empty (map (read_row sec_ext) rows) |>
+            | None => c1'
             end in
   fold_left read_sec (x_secs f) (Some c2).
+Definition read_ext : core -> xfile -> option core := read_ext_gen read_resets_ext_library.
 
 Definition reread_ext (c0 c : core) : option core := read_ext c0 (snd (write_ext c)).
 
@@ -107,3 +113,14 @@ Definition file_trig_row (k : key) : key :=
   end.
 Definition file_payload (x : Z * key) : Z * key :=
   if fst x =? XS_TRIGGERS then (fst x, file_trig_row (snd x)) else x.
+
+(* ---- a variant of read(), for the refutation in Props/C19.v: the trigger library is NOT re-created before
+   the sections are loaded (rows of the file are inserted over the old ids, the old content -> id keymap
+   entries stay) ------------------------------------------------------------------------------------------- *)
+Definition read_ext_keep_trig (c0 : core) (f : xfile) : option core :=
+  let c1 := c0 <| lset_l := lib_empty |> <| linc_l := lib_empty |> <| ext_num := [] |> <| ext_str := [] |> in
+  let c2 := match x_ext f with
+            | Some rows => c1 <| ext_l := lib_of_rows lib_empty (map (read_row sec_ext) rows) |>
+            | None => c1
+            end in
+  fold_left read_sec (x_secs f) (Some c2).
